@@ -396,6 +396,8 @@ pub fn run(ctx: &Ctx) -> i32 {
             }
             let kv = &case.kv;
             let mut per_version: Vec<(u64, Vec<u8>)> = vec![];
+            // (version, bytes, holds the second content) - candidates for swapping the data under an open container
+            let mut swap_pool: Vec<(u64, Vec<u8>, bool)> = vec![];
             let before = ev.evaluations;
             for version in 1..=3u64 {
                 for dist in 0..2 {
@@ -416,6 +418,7 @@ pub fn run(ctx: &Ctx) -> i32 {
                     let tag = ((shard as u64) << 40) | (mi as u64) << 4 | version << 1 | dist as u64;
                     let descr = || J::obj(vec![("case", case.describe()), ("version", J::U(version)), ("file_bytes", J::U(bytes.len() as u64)), ("file_hex", J::s(crate::json::hex(&bytes[..bytes.len().min(200)])))]);
                     check_file(&bytes, kv, version, container, &tmp, tag, &mut rng, ev, &descr);
+                    swap_pool.push((version, bytes.clone(), false));
                     if dist == 0 {
                         per_version.push((version, bytes));
                     }
@@ -431,6 +434,53 @@ pub fn run(ctx: &Ctx) -> i32 {
                 Err(p) => ev.violate("reader-panic", format!("set operations across versions panicked: {}", p), case.describe()),
                 Ok(Err(e)) => ev.violate("reader-mismatch", e, case.describe()),
                 Ok(Ok(())) => {}
+            }
+            // map_data onto DIFFERENT bytes of the SAME length (a regenerated file behind a refreshed memory map, a buffer patched in
+            // place, the same content in another version): the container must answer according to the bytes it holds now
+            {
+                let kv2: Kv = kv.iter().map(|(k, v)| (k.clone(), *v ^ 1)).collect();
+                for version in 1..=3u64 {
+                    let mut r2 = Rng::new(ctx.seed ^ 0x5a5a, case.fp() ^ version);
+                    let b2 = refenc::encode(&kv2, version, 0, [1u8, 0, 2][mi % 3], &mut r2);
+                    if matches!(refdec::decode(&b2), Ok(d) if d.entries() == kv2) {
+                        swap_pool.push((version, b2, true));
+                    }
+                }
+                if let Ok(Ok(b)) = guard(|| build::build(Front::MapInsert, &kv2)) {
+                    swap_pool.push((3, b, true));
+                }
+                let mut done = 0;
+                'outer: for (ai, a) in swap_pool.iter().enumerate() {
+                    for (bi, b) in swap_pool.iter().enumerate() {
+                        if ai == bi || a.1.len() != b.1.len() || a.1 == b.1 || (ai + bi + mi) % 2 == 1 {
+                            continue;
+                        }
+                        ev.eval(None);
+                        ev.count("map_data-onto-different-bytes-of-the-same-length");
+                        if a.0 != b.0 {
+                            ev.count("map_data-onto-another-version-of-the-same-length");
+                        }
+                        let kvb = if b.2 { &kv2 } else { kv };
+                        let mut r3 = Rng::new(ctx.seed, (ai * 31 + bi) as u64);
+                        let r = guard(|| -> Result<(), String> {
+                            let f = Fst::new(a.1.clone()).map_err(|e| format!("first file does not open: {}", e))?;
+                            let _ = f.verify();
+                            let _ = f.len();
+                            let g = f.map_data(|_| b.1.clone()).map_err(|e| format!("map_data onto a well-formed version-{} file failed: {}", b.0, e))?;
+                            battery(&g, kvb, b.0, &mut r3)
+                        });
+                        let descr = || J::obj(vec![("case", case.describe()), ("opened_as_version", J::U(a.0)), ("then_map_data_onto_version", J::U(b.0)), ("bytes", J::U(a.1.len() as u64)), ("second_content", J::Bool(b.2))]);
+                        match r {
+                            Err(p) => ev.violate("reader-panic", format!("version-{} file, then map_data onto a version-{} file of the same length: {}", a.0, b.0, p), descr()),
+                            Ok(Err(e)) => ev.violate("reader-mismatch", format!("version-{} file, then map_data onto a different version-{} file of the same length ({} bytes): {}", a.0, b.0, a.1.len(), e), descr()),
+                            Ok(Ok(())) => {}
+                        }
+                        done += 1;
+                        if done >= 4 {
+                            break 'outer;
+                        }
+                    }
+                }
             }
             ev.distinct_extra += ev.evaluations - before;
             ev.fps.insert(case.fp());
@@ -486,7 +536,7 @@ pub fn run(ctx: &Ctx) -> i32 {
         ev,
         Spec {
             level: "exploration",
-            rule: "one evaluation = one file opened in one container and put through the query battery (len/is_empty, full stream, a depth-first enumeration through the low-level node interface root()/node()/transitions()/transition(i)/transition_addr(i)/find_input(all 256 bytes) whose accessors must agree with each other and with the content, verify() = Ok for v3 / ChecksumMissing for v1-2, lookups of keys/prefixes/extensions and every single byte from the root, 4 random ranges, Subsequence and DFA searches) against the model the file encodes; files: ~8000 (thorough 40000) models x versions {1,2,3} x 2 output distributions and node-form policies produced by the harness' independent reference encoder (self-checked by the independent decoder; includes empty map, only-empty-key, files of 32..35 bytes, nodes with >32 transitions with and without index, dense product sets with far more keys than bytes), cross-version union/intersection/difference together with the crate's own output, 40 committed golden files (v1/v2/v3 reference encodings and v3 crate output with sidecar content), corpora in all versions; containers rotate over Vec, &[u8], Cow::Borrowed/Owned, Box<[u8]>, Arc newtype, memory map, map_data, Map/Set wrappers; plus a header sweep: version field in {0,1,2,3,4,5,255,2^32,u64::MAX} x lengths 0..44 x 3 fillings with the required error class (Version{expected:3,got}, Format{size}); non-trivial = every evaluation; distinct = by construction / fingerprint",
+            rule: "(additionally: a container opened from one file whose data is swapped through map_data for DIFFERENT well-formed bytes of the SAME length - the other content, or the same content in another version - must pass the battery for the bytes it holds now) one evaluation = one file opened in one container and put through the query battery (len/is_empty, full stream, a depth-first enumeration through the low-level node interface root()/node()/transitions()/transition(i)/transition_addr(i)/find_input(all 256 bytes) whose accessors must agree with each other and with the content, verify() = Ok for v3 / ChecksumMissing for v1-2, lookups of keys/prefixes/extensions and every single byte from the root, 4 random ranges, Subsequence and DFA searches) against the model the file encodes; files: ~8000 (thorough 40000) models x versions {1,2,3} x 2 output distributions and node-form policies produced by the harness' independent reference encoder (self-checked by the independent decoder; includes empty map, only-empty-key, files of 32..35 bytes, nodes with >32 transitions with and without index, dense product sets with far more keys than bytes), cross-version union/intersection/difference together with the crate's own output, 40 committed golden files (v1/v2/v3 reference encodings and v3 crate output with sidecar content), corpora in all versions; containers rotate over Vec, &[u8], Cow::Borrowed/Owned, Box<[u8]>, Arc newtype, memory map, map_data, Map/Set wrappers; plus a header sweep: version field in {0,1,2,3,4,5,255,2^32,u64::MAX} x lengths 0..44 x 3 fillings with the required error class (Version{expected:3,got}, Format{size}); non-trivial = every evaluation; distinct = by construction / fingerprint",
             assumptions: vec!["inputs that are both of unsupported version and shorter than any well-formed file may report either Format or Version".into(), "reference encoder output is validated by the reference decoder before use; a disagreement aborts the run as a harness error".into()],
             floors: vec![
                 ("files:version-1", 1000),
@@ -501,6 +551,8 @@ pub fn run(ctx: &Ctx) -> i32 {
                 ("golden-files", 30),
                 ("header-sweep-images", 1000),
                 ("cross-version-set-operations", 1000),
+                ("map_data-onto-different-bytes-of-the-same-length", 1000),
+                ("map_data-onto-another-version-of-the-same-length", 500),
             ],
             exhaustive: Some(false),
         },
